@@ -496,10 +496,12 @@ def _flatten(path):
     return out
 
 
-def run_paths(facts, fn, domain, args=None, this_path=('this',)):
+def run_paths(facts, fn, domain, args=None, this_path=('this',), keep_noreturn=False):
     ex = Exec(facts, domain)
     paths = ex.run(fn, args=args, this_path=this_path)
-    return [(p, _flatten(p)) for p in paths]
+    # a path that ends in a call that does not return (a failed assert, abort()) is not behaviour to be judged: asserts are assumptions
+    # the code states itself, and what such a path did before it stopped is not an outcome of the operation
+    return [(p, _flatten(p)) for p in paths if keep_noreturn or p.end != 'noreturn']
 
 
 CONTAINER_TESTS = ('empty', 'end', 'cend', 'begin', 'cbegin', 'size', 'rbegin', 'rend', 'crbegin', 'crend')
